@@ -234,6 +234,7 @@ BINARY = {
     "addcolumn_lazy_index": (lambda a, b: etl.addcolumn(a, "z", etl.values(b, "v", "k"), index=0), "both"),
     "cat": (lambda a, b: etl.cat(a, b), "first"),
     "stack": (lambda a, b: etl.stack(a, b), "first"),
+    "fromcolumns_lazy": (lambda a, b: etl.fromcolumns([etl.values(a, "k"), etl.values(b, "v"), (r[0] for r in etl.data(b))]), "lazy-second"),
     "hashleftjoin_probe": (lambda a, b: etl.hashleftjoin(a, etl.head(b, 3), key="k"), "first-bounded"),
 }
 
@@ -270,6 +271,8 @@ def check_binary(case, ctx):
     if (a1, b1) != (a2, b2):
         return Fail("binary/%s/pulls-depend-on-length" % case["op"], "%d rows pulled (%d, %d) from %d-row sources but (%d, %d) from %d-row sources" % (k + 1, a1, b1, n1, a2, b2, 100 * n1))
     bound = k + 3
+    if mode == "lazy-second":
+        mode, b2, b1 = "both", (b2 + 1) // 2, (b1 + 1) // 2   # two of the three columns read the second source
     if a2 > bound or (mode == "both" and b2 > bound) or (mode == "first" and b2 > 0) or (mode == "first-bounded" and b2 > 5):
         return Fail("binary/%s/pulls-exceed-bound" % case["op"], "%d rows pulled (%d, %d) data rows from the two sources (bound %d, mode %s)" % (k + 1, a2, b2, bound, mode))
     return None
@@ -301,8 +304,11 @@ PRESORTED = [n for n, e in catalog.ENTRIES.items() if e.has("presorted")
 
 def presorted_cases(tier):
     for name in PRESORTED:
-        for k in (1, 3):
-            yield {"entry": name, "k": k}
+        for k in (1, 3, 8):
+            for short in (None, 3):   # optionally the FIRST input has only 3 rows: the others must still be streamed
+                if short and catalog.get(name).n < 2:
+                    continue
+                yield {"entry": name, "k": k, "short": short}
 
 
 def check_presorted(case, ctx):
@@ -311,6 +317,8 @@ def check_presorted(case, ctx):
     res = []
     for n in (60, 6000):
         srcs = [Seq(n, offset=i) for i in range(e.n)]
+        if case.get("short"):
+            srcs[0] = Seq(case["short"])
         try:
             view = e.build(srcs, presorted=True)
             c0 = [s_.data_pulls for s_ in srcs]
@@ -330,7 +338,7 @@ def check_presorted(case, ctx):
         return Fail("presorted/%s/prefix-differs" % e.name, "%r vs %r" % (o1, o2))
     if p1 != p2:
         return Fail("presorted/%s/pulls-depend-on-length" % e.name, "%d rows pulled %r from 60-row sources but %r from 6000-row sources" % (k + 1, p1, p2))
-    if max(p2) > 2 * k + 8:
+    if max(p2) > 2 * k + 8 + (case.get("short") or 0):
         return Fail("presorted/%s/pulls-exceed-bound" % e.name, "%d rows pulled %r data rows" % (k + 1, p2))
     return None
 
